@@ -685,6 +685,29 @@ func RunC13(c *Ctx, r *Report) {
 		return
 	}
 	r.Func(c.FuncName(fn))
+	// a critical unsupported payload inside a protected message is refused by the nested walker; that refusal
+	// reaches the caller of DecodeDecrypt only if every step on the way hands it up with nothing beside it
+	{
+		ruleU := prefix + "unprotect.refusal-propagates"
+		r.Rule(ruleU, "in DecodeDecrypt and decryptMsg the error of every call to a module function leads only to returns of a non-nil error with a nil message (the refusal of a critical unsupported payload in the embedded chain is not traded for a partial result)", 4)
+		for _, g := range []*ssa.Function{c.Func("", "DecodeDecrypt"), c.Func("", "decryptMsg")} {
+			if g == nil {
+				r.undecided(ruleU, "anchor", "-", "DecodeDecrypt / decryptMsg does not resolve")
+				continue
+			}
+			r.Func(c.FuncName(g))
+			for _, b := range g.Blocks {
+				for _, ins := range b.Instrs {
+					call, ok := ins.(*ssa.Call)
+					if !ok || errResult(call) == nil || len(c.CalleesAt(call).Mod) == 0 {
+						continue
+					}
+					ok2, why := c.errorChecked(call)
+					r.Check(ok2, ruleU, c.FuncName(g)+": "+c.SrcExpr(call), c.InstrPos(call), why, why)
+				}
+			}
+		}
+	}
 	// an unsupported payload with an empty body is a payload too: the walker's test of the remaining length lets a
 	// bare 4-octet generic header pass, at the end of the chain as anywhere else
 	if w := c.slotWorld(r, prefix); w != nil {
